@@ -57,7 +57,12 @@ CLAIM = dict(
           "varies what the API legally accepts (validated, verdict by model + Lean rule): constructor arguments as "
           "int / bool / IntEnum / numpy.bool_, positional and keyword; scalar values as float, exactly representable "
           "int (incl. 2^31, 2^32, 2^53, 2^63, 2^64, 2^100), bool, numpy.float64, numpy.int64 / int8 / uint64, Fraction, "
-          "positional and keyword; array inputs as tuple, nested list, range, int32 / bool arrays, memoryview, ndarray "
+          "positional and keyword; NumPy float16 / float32 / float64 scalars as values of float_to_fp / float_to_fix "
+          "over all formats (scales and products far beyond the narrow type's range) and NumPy unsigned / signed "
+          "integer scalars as words of fix_to_float / values of fp_to_float (finding F23, fixed in the pinned tree: "
+          "a regression is reported with a concrete input) - the rule, the model and every theorem are about the real "
+          "number (exact dyadic value) the argument denotes, not about the type that carries it, so the expected result "
+          "is the model's on that exact value; array inputs as tuple, nested list, range, int32 / bool arrays, memoryview, ndarray "
           "subclass, empty (0,) and (0,3), numpy scalar, 7-D, float32 / float16; numpy error state 'raise' and "
           "RuntimeWarning-as-error around calls whose scaled values are finite; the caller edits in place an object it "
           "passed and passes it again (to the same or a second converter), repeats the very same call, calls with "
@@ -90,9 +95,7 @@ CLAIM = dict(
           "array-likes (numpy.asarray makes a 0-d object array of them) and NumpyFixToFloatConverter documents NumPy "
           "arrays only (lists are not divided by a float). numpy ints as n_bits / n_frac are outside the property text "
           "and TAG-ONLY (reuse_numpy_int_params_differ): e.g. float_to_fp(False, numpy.int32(32), 4) wraps in "
-          "`1 << n_bits`. numpy.float16 / float32 SCALARS as values of float_to_fp / float_to_fix and numpy unsigned "
-          "scalars as words of fix_to_float are kept OUT of the generators pending a decision (they raise "
-          "OverflowError on the unchanged code: fixes/c16-numpy-scalar-arguments.diff). numpy 'under' errors and "
+          "`1 << n_bits` (formats are documented as ints). numpy 'under' errors and "
           "python -O (asserts stripped) are not varied: underflow is a legitimate numpy event for in-domain inputs and "
           "-O needs another process."),
     technique="Lean 4 theorems over a hand-written model + differential correspondence + Lean spec as oracle")
@@ -129,7 +132,10 @@ RULE = ("one case = one format (signed, n_bits, n_frac) with 6-24 doubles built 
         "call: value kind or container kind (30-35%), keyword call (20%), numpy error state raise / warnings-as-errors "
         "(40%, applied when every scaled value is finite), then with 18% the same object again (70% edited in place) "
         "and with 10% a faulty call; 10% twin converters; scale cases: one per size 257 / 65,537 / 131,073 / 10^6 plus "
-        "2 (36 thorough) random ones, 6 (60) wide-format / huge-integer scalar cases. "
+        "2 (36 thorough) random ones, 6 (60) wide-format / huge-integer scalar cases; 500 (8,000) NumPy-scalar cases: "
+        "float16 / float32 / float64 values (rounded to the type, its extremes) for float_to_fp / float_to_fix over the "
+        "general format generator plus n_frac around 16 / 128 / 1000, unsigned / signed NumPy words and integers for "
+        "fix_to_float / fp_to_float over widths 1-80. "
         "A case is non-trivial when it contains both a saturating value and an in-range value whose scaled value has a "
         "fractional part (conversion and narrow cases), an in-range integer of more than 24 bits (inverse cases), or a value "
         "that saturates in an earlier step and not in a later one (sequence cases), or one converter called twice on the same "
@@ -1280,8 +1286,9 @@ def gen_reuse_spec(rng, kind, signed=None, bits=None):
 NUMPY_PARAM = ("np64", "np32", "npu8")
 FLOAT_CONTAINERS_EXTRA = ["tuple", "nested", "range", "intarr", "boolarr", "memview", "subclass", "empty", "empty2d",
                           "npscalar", "nd7", "f32", "f16"]
-VALUE_KINDS_FLOAT = ["int", "bool", "npf64", "npi64", "fraction"]
-VALUE_KINDS_INT = ["bool", "npi64", "npi8", "npu64"]
+VALUE_KINDS_FLOAT = ["int", "bool", "npf64", "npi64", "fraction", "npf32", "npf16", "npf32", "npf16"]
+VALUE_KINDS_INT = ["bool", "npi64", "npi8", "npu64", "npu", "npi"]
+VALUE_KINDS_WORD = ["bool", "npu", "npu", "npu64", "npi", "npu32"]
 EXACT_BIG = [2 ** 31, 2 ** 32, 2 ** 53, 2 ** 63, 2 ** 64, 2 ** 100, -(2 ** 31), -(2 ** 63), -(2 ** 100), 2 ** 31 - 1,
              2 ** 32 + 1, 2 ** 53 - 1]
 
@@ -1377,15 +1384,21 @@ def gen_reuse_case(rng):
             call_["vk"] = vk
             if vk == "bool":
                 call_["vs"] = [to_dy(float(rng.choice([0, 1]))) for _ in range(n)]
+            elif vk in ("npf32", "npf16"):
+                prec = "f32" if vk == "npf32" else "f16"
+                ys = [y for y in (to_narrow(from_dy(p), prec) for p in call_["vs"]) if y is not None] or [0.5]
+                call_["vs"] = [to_dy(y) for y in (ys * n)[:n]]
             elif vk in ("int", "npi64"):
                 lo, hi = fmt_range(fmt)
                 pool = [0, 1, -1, 3, -3, 100, hi >> max(fmt["frac"], 0), (hi >> max(fmt["frac"], 0)) + 1,
                         (lo >> max(fmt["frac"], 0)) - 1] + (EXACT_BIG if vk == "int" else EXACT_BIG[:4])
                 call_["vs"] = [to_dy(float(rng.choice(pool))) for _ in range(n)]
         elif sp["kind"] in ("fp_float", "fix_float") and rng.random() < 0.35:
-            vk = rng.choice(VALUE_KINDS_INT if sp["kind"] == "fp_float" else ["bool"])
+            vk = rng.choice(VALUE_KINDS_INT if sp["kind"] == "fp_float" else VALUE_KINDS_WORD)
             call_["vk"] = vk
-            if vk == "bool":
+            if sp["kind"] == "fix_float" and vk != "bool":
+                pass                                    # the words already generated, as NumPy scalars
+            elif vk == "bool":
                 call_["ks"] = [rng.choice([0, 1]) for _ in range(n)]
             elif vk == "npi8":
                 call_["ks"] = [rng.randrange(-128, 128) for _ in range(n)]
@@ -1419,6 +1432,58 @@ def gen_reuse_case(rng):
     return {"kind": "reuse", "convs": convs, "calls": calls, "twins": twins,
             "mutate_result": sorted(rng.sample(range(k), rng.choice([0, 0, 1, 1, 2]))),
             "mutate_input": sorted(rng.sample(range(k), rng.choice([0, 1, 1, 2])))}
+
+
+def gen_npscalar_case(rng):
+    """NumPy scalars as arguments of the scalar closures, over ALL formats: float16 / float32 / float64 values for
+    float_to_fp / float_to_fix (incl. scales and products far beyond the range of the narrow type), unsigned and signed
+    NumPy integers as words / values for fix_to_float / fp_to_float.  Expected: the model on the exact value."""
+    r = rng.random()
+    if r < 0.6:
+        kind = rng.choice(["fp", "fp", "fix"])
+        fmt = gen_fmt(rng)
+        if rng.random() < 0.3:
+            fmt["frac"] = rng.choice([15, 16, 17, 24, 40, 100, 127, 128, 129, 200, 1000, 1023, -16, -24, -25, -149, -150])
+        if kind == "fix":
+            fmt["bits"] = max(1, fmt["bits"])
+            fmt["frac"] = max(0, min(abs(fmt["frac"]), fmt["bits"] - (1 if fmt["signed"] else 0)))
+        sp = {"kind": kind, "fmt": fmt}
+        calls = []
+        for _ in range(rng.choice([1, 2, 3])):
+            vk = rng.choice(["npf16", "npf32", "npf32", "npf64"])
+            xs = gen_values(rng, fmt, 6)
+            if vk != "npf64":
+                prec = "f32" if vk == "npf32" else "f16"
+                P = NARROW[prec]
+                top = math.ldexp(2.0 - 2.0 ** (1 - P["p"]), P["emax"] - 1)
+                tiny = math.ldexp(1.0, P["emin"])
+                xs = [y for y in (to_narrow(x, prec) for x in xs) if y is not None]
+                xs += [rng.choice([top, -top, tiny, -tiny, 0.5, -0.25, 1.0, 100.0, math.ldexp(1.0, P["emax"] - 1)])
+                       for _ in range(3)]
+            calls.append({"c": 0, "cont": "list", "vk": vk, "vs": [to_dy(x) for x in xs]})
+    else:
+        kind = rng.choice(["fix_float", "fix_float", "fp_float"])
+        bits = rng.choice([8, 8, 16, 16, 32, 32, 64, 64, rng.randrange(1, 65), rng.randrange(1, 65), 65, 80])
+        signed = rng.random() < 0.6
+        frac = rng.randrange(0, bits - (1 if signed else 0) + 1) if kind == "fix_float" else rng.randrange(-20, 80)
+        fmt = {"signed": signed, "bits": bits, "frac": frac}
+        sp = {"kind": kind, "fmt": fmt}
+        calls = []
+        for _ in range(rng.choice([1, 2, 3])):
+            if kind == "fix_float":
+                ws = [rng.choice([0, 1, 2 ** (bits - 1), 2 ** (bits - 1) - 1, 2 ** bits - 1, 2 ** bits - 2,
+                                  2 ** (bits - 1) + 1, rng.randrange(2 ** bits)]) % 2 ** bits for _ in range(6)]
+                calls.append({"c": 0, "ks": ws, "vk": rng.choice(["npu", "npu", "npu64", "npu32", "npi"])})
+            else:
+                vk = rng.choice(["npu", "npu64", "npi", "npi64", "npi8"])
+                lo, hi = (0, 2 ** 64 - 1) if vk in ("npu", "npu64") else (-2 ** 63, 2 ** 63 - 1) if vk != "npi8" else (-128, 127)
+                ks = [rng.choice([lo, hi, 0, 1, hi // 2, 255, 256, 65535, 2 ** 32 - 1, 2 ** 53 + 1, rng.randrange(lo, hi + 1)])
+                      for _ in range(6)]
+                calls.append({"c": 0, "ks": [min(max(k, lo), hi) for k in ks], "vk": vk})
+    if rng.random() < 0.3:
+        for cl in calls:
+            cl["es"] = rng.choice(["raise", "warn_error"])
+    return {"kind": "reuse", "convs": [sp], "calls": calls, "mutate_result": [], "mutate_input": [], "npscalar": True}
 
 
 def gen_ints_in(rng, fmt, n):
@@ -1501,6 +1566,22 @@ def value_arg(np, x, vk):
         return np.uint64(int(x)) if 0 <= x < 2 ** 64 else int(x)
     if vk == "fraction":
         return Fr(x)
+    if vk == "npf32":
+        return np.float32(x)
+    if vk == "npf16":
+        return np.float16(x)
+    if vk == "npu":         # the smallest unsigned NumPy type that holds the integer (an element of a uintN array)
+        for t in (np.uint8, np.uint16, np.uint32, np.uint64):
+            if 0 <= x <= int(np.iinfo(t).max):
+                return t(int(x))
+        return int(x)
+    if vk == "npu32":
+        return np.uint32(int(x)) if 0 <= x < 2 ** 32 else value_arg(np, x, "npu")
+    if vk == "npi":         # the smallest signed NumPy type
+        for t in (np.int8, np.int16, np.int32, np.int64):
+            if int(np.iinfo(t).min) <= x <= int(np.iinfo(t).max):
+                return t(int(x))
+        return int(x)
     return x
 
 
@@ -1740,7 +1821,7 @@ def eval_reuse(ctx, cases):
 
 def judge_reuse(ctx, c):
     impl = c["impl"]
-    desc = {k: c[k] for k in ("kind", "convs", "calls", "mutate_result", "mutate_input", "twins", "scale") if k in c}
+    desc = {k: c[k] for k in ("kind", "convs", "calls", "mutate_result", "mutate_input", "twins", "scale", "npscalar") if k in c}
     ctx.traces += 1
     names = {"np_fix": "NumpyFloatToFixConverter", "np_float": "NumpyFixToFloatConverter", "fp": "float_to_fp",
              "fix": "float_to_fix", "fp_float": "fp_to_float", "fix_float": "fix_to_float"}
@@ -1852,6 +1933,8 @@ def judge_reuse(ctx, c):
         ctx.tag("scale_scalar_%s_bits_%d" % (c["convs"][0]["kind"], c["convs"][0]["fmt"]["bits"]))
     if c.get("twins"):
         ctx.tag("reuse_twins")
+    if c.get("npscalar"):
+        ctx.tag("npscalar_" + c["convs"][0]["kind"])
     ctx.case(desc, same_shape_again or len(c["convs"]) > 1)
 
 
@@ -2078,6 +2161,18 @@ FIXED = [
      "steps": [{"fmt": {"signed": False, "bits": 8, "frac": 0}, "to_float": []},
                {"fmt": {"signed": False, "bits": 16, "frac": 0}, "to_float": [0]},
                {"fmt": {"signed": False, "bits": 32, "frac": 3}, "to_float": [3, 0]}]},
+    # NumPy scalars as values / words of the scalar closures (F23)
+    {"kind": "reuse", "npscalar": True, "mutate_result": [], "mutate_input": [],
+     "convs": [{"kind": "fp", "fmt": {"signed": True, "bits": 32, "frac": 16}},
+               {"kind": "fp", "fmt": {"signed": True, "bits": 64, "frac": 40}},
+               {"kind": "fix", "fmt": {"signed": True, "bits": 32, "frac": 16}},
+               {"kind": "fix_float", "fmt": {"signed": True, "bits": 8, "frac": 4}},
+               {"kind": "fix_float", "fmt": {"signed": True, "bits": 64, "frac": 0}}],
+     "calls": [{"c": 0, "cont": "list", "vk": "npf16", "vs": [to_dy(x) for x in (0.5, -0.25, 100.0, 65504.0)]},
+               {"c": 1, "cont": "list", "vk": "npf32", "vs": [to_dy(x) for x in (1.0000000150474662e+30, 0.75)]},
+               {"c": 2, "cont": "list", "vk": "npf16", "vs": [to_dy(x) for x in (0.5, -0.5, 100.0)]},
+               {"c": 3, "vk": "npu", "ks": [0xf8, 0x08, 0x80, 0xff]},
+               {"c": 4, "vk": "npu64", "ks": [2 ** 63, 2 ** 64 - 1, 5]}]},
     # one converter object, same-shaped inputs, all results kept
     {"kind": "reuse", "convs": [{"kind": "np_fix", "fmt": {"signed": True, "bits": 32, "frac": 15}}],
      "calls": [{"c": 0, "cont": "c2d", "vs": [to_dy(x) for x in (0.5, -0.25, 3.75, 1e30, -1e30, 0.0)]},
@@ -2136,6 +2231,7 @@ def run(ctx):
     cases += [gen_reuse_case(rng) for _ in range(n_reuse)]
     cases += [gen_scale_case(rng, size) for size in SCALE_SIZES] + [gen_scale_case(rng) for _ in range(ctx.scale(2, 36))]
     cases += [gen_scale_scalar_case(rng) for _ in range(ctx.scale(6, 60))]
+    cases += [gen_npscalar_case(rng) for _ in range(ctx.scale(500, 8000))]
     if not ctx.quick or ctx.extended:
         # all boundary neighbourhoods of every (signed, bits, frac)
         for signed in (True, False):
